@@ -39,13 +39,14 @@ func main() {
 var injected = errors.New("injected read error")
 
 type fconn struct {
-	data    []byte
-	pos     int
-	r       *mon.Rand
-	out     bytes.Buffer
-	maxFrag int
-	failAt  int // -1: EOF at the end; else inject an error once pos >= failAt
-	writes  int
+	data      []byte
+	pos       int
+	r         *mon.Rand
+	out       bytes.Buffer
+	maxFrag   int
+	failAt    int // -1: EOF at the end; else inject an error once pos >= failAt
+	writes    int
+	partialAt int // see Write
 }
 
 func (c *fconn) Read(p []byte) (int, error) {
@@ -72,7 +73,29 @@ func (c *fconn) Read(p []byte) (int, error) {
 	c.pos += n
 	return n, nil
 }
-func (c *fconn) Write(p []byte) (int, error)      { c.writes++; return c.out.Write(p) }
+
+// Write takes everything, except once at partialAt (if armed, >= 0): the write that would
+// cross that many bytes of total output is cut there and reports a timeout, as a real
+// connection with a write deadline does; later writes go through again.
+func (c *fconn) Write(p []byte) (int, error) {
+	c.writes++
+	if c.partialAt >= 0 && c.out.Len()+len(p) > c.partialAt {
+		k := c.partialAt - c.out.Len()
+		if k < 0 {
+			k = 0
+		}
+		c.partialAt = -1
+		c.out.Write(p[:k])
+		return k, writeTimeout{}
+	}
+	return c.out.Write(p)
+}
+
+type writeTimeout struct{}
+
+func (writeTimeout) Error() string                { return "write timeout (scripted)" }
+func (writeTimeout) Timeout() bool                { return true }
+func (writeTimeout) Temporary() bool              { return true }
 func (c *fconn) Close() error                     { return nil }
 func (c *fconn) LocalAddr() net.Addr              { return nil }
 func (c *fconn) RemoteAddr() net.Addr             { return nil }
@@ -88,9 +111,18 @@ var sizes = []int{1, 2, 7, 100, 1023, 1024, 1025, 4095, 4096, 4097, 8191, 8192, 
 type source struct {
 	b    []byte
 	kind string
+	// failAfter >= 0: once that many bytes have been handed out the source fails with an
+	// error of its own (a file that becomes unreadable, a relayed body whose peer resets)
+	failAfter int
+	given     int
 }
 
+var errSourceFailed = errors.New("source failed (scripted)")
+
 func (s *source) Read(p []byte) (int, error) {
+	if s.failAfter >= 0 && s.given >= s.failAfter {
+		return 0, errSourceFailed
+	}
 	if len(s.b) == 0 {
 		return 0, io.EOF
 	}
@@ -104,8 +136,12 @@ func (s *source) Read(p []byte) (int, error) {
 	case "onebyte":
 		n = 1
 	}
+	if s.failAfter >= 0 && n > s.failAfter-s.given {
+		n = s.failAfter - s.given
+	}
 	n = copy(p[:n], s.b)
 	s.b = s.b[n:]
+	s.given += n
 	if len(s.b) == 0 && (s.kind == "data+eof" || s.kind == "data+eof-short") {
 		return n, io.EOF
 	}
@@ -121,7 +157,7 @@ func readerCase(w *mon.W, c *mon.Case) {
 	for i := range data {
 		data[i] = posByte(i)
 	}
-	fc := &fconn{data: data, r: r.Fork(), maxFrag: r.Int(1, 10, 1000, 5000, 20000), failAt: -1}
+	fc := &fconn{data: data, r: r.Fork(), maxFrag: r.Int(1, 10, 1000, 5000, 20000), failAt: -1, partialAt: -1}
 	if fc.maxFrag == 1 && total > 20000 {
 		fc.maxFrag = 10
 	}
@@ -289,7 +325,7 @@ func readerCase(w *mon.W, c *mon.Case) {
 
 func writerCase(w *mon.W, c *mon.Case) {
 	r := c.R
-	fc := &fconn{r: r.Fork(), failAt: -1}
+	fc := &fconn{r: r.Fork(), failAt: -1, partialAt: -1}
 	initBuf := r.Int(0, 4096, 8192, 100)
 	cn := standard.VerifNewConn(fc, initBuf)
 	var model []byte
@@ -376,7 +412,24 @@ func writerCase(w *mon.W, c *mon.Case) {
 				crossed = true
 			}
 		case 4:
-			if err := cn.Flush(); err != nil {
+			armed := false
+			if pending := len(model) - fc.out.Len(); pending > 0 && r.Chance(6) {
+				// the peer is slow once: a write is cut short by the write deadline somewhere
+				// inside what is pending; the caller lifts the deadline and flushes again
+				fc.partialAt = fc.out.Len() + r.Intn(pending)
+				armed = true
+			}
+			err := cn.Flush()
+			if err != nil && armed {
+				if _, ok := err.(interface{ Timeout() bool }); !ok {
+					c.Violate("flush", "Flush failed with %v (the connection reported a timeout)", err)
+					return
+				}
+				opsLog = append(opsLog, "Flush(timed out after a partial write)")
+				w.Count("flushes_retried_after_partial_write", 1)
+				err = cn.Flush()
+			}
+			if err != nil {
 				c.Violate("flush", "Flush failed: %v", err)
 				return
 			}
@@ -397,8 +450,23 @@ func writerCase(w *mon.W, c *mon.Case) {
 			if kind == "onebyte" && sz > 3000 {
 				kind = "plain"
 			}
-			src := &source{b: b, kind: kind}
+			src := &source{b: b, kind: kind, failAfter: -1}
+			if sz > 1 && r.Chance(5) {
+				src.failAfter = r.Intn(sz)
+			}
 			n, err := cn.(io.ReaderFrom).ReadFrom(src)
+			if src.failAfter >= 0 {
+				// the source failed: ReadFrom reports it together with the number of bytes it
+				// took, which count as written; the connection stays usable
+				opsLog = append(opsLog, fmt.Sprintf("ReadFrom(%d,%s,source fails after %d)", sz, kind, src.failAfter))
+				w.Count("readfrom_source_failing", 1)
+				if err == nil || n != int64(src.failAfter) {
+					c.Violate("readfrom-count", "ReadFrom of a source that fails after %d bytes returned n=%d, err=%v", src.failAfter, n, err)
+					return
+				}
+				model = append(model, b[:n]...)
+				continue
+			}
 			opsLog = append(opsLog, fmt.Sprintf("ReadFrom(%d,%s)", sz, kind))
 			w.Count("readfrom_source_"+kind, 1)
 			if err == nil && n != int64(sz) {
